@@ -67,6 +67,7 @@ class C12(runner.Check):
         types = values.TYPES_QUICK if tier == "quick" else values.TYPES_THOROUGH
         out = [(tier, "hist", ti) for ti in range(len(types))]
         out += [(tier, "print", g) for g in c11_validity.GROUPS_A]
+        out += [(tier, "long", g) for g in range(6)]
         return out
 
     def run_shard(self, shard):
@@ -74,24 +75,43 @@ class C12(runner.Check):
         st = Stats()
         if part == "hist":
             self._hist(tier, x, st)
+        elif part == "long":
+            self._hist(tier, None, st, self._long_universe(tier, x))
         else:
             self._print(tier, x, st)
         pool.unmark()
         return st.pack()
 
-    def _hist(self, tier, ti, st):
+    def _long_universe(self, tier, g):
+        """arrays that leave the small-input paths: lists longer than the sorting thresholds, option nodes spanning
+        several mask bytes"""
+        from values import I, F, var, opt
+        out = []
+        for kind, tvs in values.long_sort_values((17, 33) if tier == "quick" else (16, 17, 24, 33, 65)):
+            out.append((var(F) if kind == "float" else var(I), tvs))
+        for tvs in values.long_option_values((9,) if tier == "quick" else (9, 17)):
+            out.append((opt(I), tvs))
+        for tvs in values.long_option_list_values():
+            out.append((var(opt(I)), tvs))
+        return [x for k, x in enumerate(out) if k % 6 == g]
+
+    def _hist(self, tier, ti, st, universe=None):
         types = values.TYPES_QUICK if tier == "quick" else values.TYPES_THOROUGH
-        T = types[ti]
         N, M, cap = (2, 2, 12) if tier == "quick" else (3, 2, 80)
         patterns = (0x00, 0xFF) if tier == "quick" else (0x00, 0xFF, 0xA5)
         no = 0
         nvals = 0
-        for tvs in values.arrays(T, N, M, 5):
+        if universe is None:
+            universe = ((types[ti], tvs) for tvs in values.arrays(types[ti], N, M, 5))
+            nenc = None
+        else:
+            nenc = 3
+        for T, tvs in universe:
             nvals += 1
-            if nvals > cap:
+            if ti is not None and nvals > cap:
                 st.caps.append("type %s: value cap %d" % (values.tstr(T), cap))
                 break
-            for d, names in encs.encodings(T, tvs, 1, True):
+            for d, names in list(encs.encodings(T, tvs, 1, True))[:nenc]:
                 st.states += 1
                 ops = [(n, a) for n, a, _ in opalpha.ops_for(d, T, "quick", small=(tier == "quick"))]
                 for k, (n1, a1) in enumerate(ops):
